@@ -84,6 +84,8 @@ class C13(Prop):
                 k = g.randint(0, 6) if sec in ("W", "C", "P") else g.choice([0, 0, 1, 2, 3])
                 pool = g.sample(nm, g.randint(1, 4))
                 secs[sec] = [g.choice(pool) for _ in range(k)]
+                if sec == "P" and g.random() < 0.12:
+                    secs["P2"] = [g.choice(pool) for _ in range(g.randint(1, 4))]
             case = g.choice(["preserve", "upper", "lower"])
             base = {"kind": "read", "file": {"sections": secs, "vers": g.choice([1.2, 2.0])}, "case": case,
                     "transforms": case != "preserve", "section": g.choice(["well", "curves", "params"]),
@@ -113,6 +115,9 @@ class C13(Prop):
         curves = [("DEPT", "M", "", "index")] + [(n, "", "", "curve %d" % i) for i, n in enumerate(f["sections"]["C"])]
         lines += docmodel.curve_section(curves)
         lines += docmodel.param_section([(n, "", "%d" % (20 + i), "param %d" % i) for i, n in enumerate(f["sections"]["P"])])
+        if f["sections"].get("P2") is not None:
+            # a second ~Parameter block (one per logging run); whatever lasio keeps of the two, the names must stay distinct
+            lines += docmodel.param_section([(n, "", "%d" % (60 + i), "run 2 param %d" % i) for i, n in enumerate(f["sections"]["P2"])])
         if f["sections"].get("X"):
             lines += ["~Xtra custom section"] + [docmodel.hline(n, "", "%d" % (40 + i), "custom %d" % i) for i, n in enumerate(f["sections"]["X"])]
         rows = [["%d" % (i * 10 + j) for j in range(len(curves))] for i in range(3)]
@@ -142,6 +147,27 @@ class C13(Prop):
                   "version": ["VERS", "WRAP"] + f["sections"].get("V", [])}
         if f["sections"].get("X"):
             expect["Xtra custom section"] = f["sections"]["X"]
+        if f["sections"].get("P2") is not None:
+            del expect["params"]
+        # the statement's invariants right after the read, for every header section of the result
+        for secname, sec in las.sections.items():
+            if isinstance(sec, str):
+                continue
+            real = list(list.__iter__(sec))
+            fold = (lambda x: x.upper()) if sec.mnemonic_transforms else (lambda x: x)
+            names_now = [fold(it.mnemonic) for it in real]
+            if len(set(names_now)) != len(names_now):
+                res.violate("C13.read-sessions", "read(case=%s) ~%s session names %r are not pairwise distinct" % (
+                    b["case"], secname, [it.mnemonic for it in real]))
+                break
+            for i, it in enumerate(real):
+                try:
+                    got = sec[it.mnemonic]
+                except Exception as e:
+                    got = e
+                if got is not it:
+                    res.violate("C13.read-sessions", "read(case=%s) ~%s: name %r does not resolve to item #%d" % (b["case"], secname, it.mnemonic, i))
+                    break
         for secname, names in expect.items():
             sec = {"well": las.well, "curves": las.curves, "params": las.params, "version": las.version}.get(secname)
             if sec is None:
